@@ -221,6 +221,52 @@ def run(ctx):
             obad.append((-1, sc["flavor"], "server stopped reading a 24 MB message: send returned %s" % e, r))
         if ms > 3 * T + 700:      # (encoding 24 MB takes a few hundred ms of CPU before the first write)
             obad.append((-1, sc["flavor"], "server stopped reading: send took %d ms with timeout %d ms" % (ms, T), r))
+    # ---- STARTTLS and the TLS handshake: the peer accepts STARTTLS (or the TCP connection of a wrapper-mode transport) and then says nothing
+    tscs = []
+    for T in Ts[:2]:
+        for fl in ("sync", "tokio"):
+            for mode in ("starttls-reply", "handshake-required", "handshake-opportunistic", "wrapper"):
+                stall = step("sleep", stall_ms=5 * T + 300, close=True)
+                ehlo_tls = step("line", b"250-srv\r\n250-STARTTLS\r\n250 8BITMIME\r\n")
+                if mode == "starttls-reply":
+                    first = [step("none", REPLY["greeting"]), ehlo_tls, step("line", stall_ms=5 * T + 300, close=True)]
+                elif mode == "wrapper":
+                    first = [stall]
+                else:
+                    first = [step("none", REPLY["greeting"]), ehlo_tls, step("line", b"220 go ahead\r\n"), stall]
+                second = [step("none", REPLY["greeting"]), step("line", b"250-srv\r\n250 8BITMIME\r\n"), step("line", REPLY["mail"]), step("line", REPLY["rcpt0"]), step("line", REPLY["data"]),
+                          step("data", REPLY["eod"]), step("line", REPLY["quit"])]
+                url = {"starttls-reply": "smtp://127.0.0.1:{port}?tls=opportunistic", "handshake-required": "smtp://127.0.0.1:{port}?tls=required",
+                       "handshake-opportunistic": "smtp://127.0.0.1:{port}?tls=opportunistic", "wrapper": "smtps://127.0.0.1:{port}"}[mode]
+                send = {"op": "tsend", "from": hx(b"a@x.org"), "to": [hx(b"b@y.org")], "msg": hx(b"hello\r\n")}
+                tscs.append({"id": len(tscs), "flavor": fl, "timeout_ms": T, "servers": [first, second], "server_cap_ms": 6 * T + 1500, "hang_ms": 30000, "T": T, "mode": mode,
+                             "ops": [{"op": "transport", "url": url}, send, dict(send), {"op": "tdrop"}]})
+    tres = run_scenarios(tscs, threads=4)
+    for sc, r in zip(tscs, tres):
+        ctx.count(); ctx.cls("tls-stall-%s/%s" % (sc["mode"], sc["flavor"]))
+        T = sc["T"]
+        if r.get("results") in ("HANG", "PANIC") or "error" in r:
+            obad.append((-1, sc["flavor"], "client %s on a stall in %s" % (r.get("results", r.get("error")), sc["mode"]), r)); continue
+        e, ms = r["results"][1], r["ms"][1]
+        cls = None
+        if not str(e).startswith("err,"):
+            obad.append((-1, sc["flavor"], "a peer that goes silent (%s) did not make the send fail: %s" % (sc["mode"], e), r)); continue
+        if ms > 2 * T + SLACK:
+            cls = "F43-tls-handshake-unbounded"
+            what = "%s: the send took %d ms with timeout %d ms (more than 2T + %d)" % (sc["mode"], ms, T, SLACK)
+        elif not re.match(r"^err,[a-z]+,[^,]*,[^,]*,1", e):
+            cls = "F44-tls-timeout-not-identified"
+            what = "%s: the error of the stalled send does not identify itself as a timeout: %s" % (sc["mode"], e)
+        if cls:
+            if cls in known:
+                hits[cls] = hits.get(cls, 0) + 1
+            else:
+                obad.append((-1, sc["flavor"], what, r))
+        if sc["mode"] != "wrapper" and sc["mode"] != "handshake-required":
+            e2 = r["results"][2]
+            if not str(e2).startswith("ok,"):
+                obad.append((-1, sc["flavor"], "the transport is not usable after a stall in %s: next send returned %s" % (sc["mode"], e2), r))
+    ctx.cov["oracle"]["tls_stalls"] = {"cases": len(tscs), "modes": ["STARTTLS reply", "handshake after 220 (required / opportunistic)", "wrapper-mode handshake"]}
     ctx.cov["oracle"]["stall_matrix_timing"] = {"connection_level": len(impl), "transport_level": len(pscs), "write_stall": len(wscs), "failures": len(obad), "known_class_hits": hits,
                                                 "bounds": "T - 25 ms <= elapsed <= 2T + %d ms (4T + slack when a stalled NOOP probe is followed by a fresh connection)" % SLACK}
     ctx.cov["correspondence"]["client_model_on_stall_scripts"] = {"scenarios": len(scs), "flavors": ["sync", "tokio"], "disagreements": len(cbad)}
